@@ -403,7 +403,8 @@ var c09Seeds = []string{
 	"$single([1,2], function($v){true})", "$lookup($sum, \"a\")", "$base64decode(\"***\")", "$decodeUrl(\"%zz\")", "$encodeUrl(\"�\")", "$encodeUrlComponent(\"�\")",
 	"$error(\"boom\")", "$error()", "$error(1)", "$exists()", "$count()", "$not()", "$boolean()", "$string()", "$append()", "$append(1)", "$now(1)", "$millis(1)",
 	"$now(\"[Y]\", \"+0100\")", "/a/(\"xay\").next().next()", "/a/(1)", "/a/()", "$match(\"aaa\", /a/).match", "$contains(\"a\", /(/)", "(/a/).*", "(/a/).next",
-	"$$ ~> |**|{\"a\": $$}|", "items ~> |$|{\"self\": $}|", "$ ~> |items|{\"items\": 1}|", "$ ~> |items|{}, \"id\"|.items.id", "{\"a\": 1, \"a\": 2}", "{1: 2}", "{nothing: 2}",
+	"$$ ~> |**|{\"a\": $$}|", "items ~> |$|{\"self\": $}|", "$string(items ~> |$|{\"self\": $}|)", "($x := $ ~> |$|{\"self\": $}|; $count($x.**))", "$ ~> |$|{\"p\": a[10], \"q\": $^(k)}, \"k\"|",
+	"$ ~> |items|{\"sib\": $$.items}|", "($c := $ ~> |items[0]|{\"o\": $$.items[1]}|; $c ~> |items[1]|{\"o\": $$.items[0]}|) ~> $string()", "$ ~> |**|{\"up\": $$}| ~> $string() ~> $length()", "(items ~> |$|{\"self\": [$, [$]]}|).self", "$ ~> |items|{\"items\": 1}|", "$ ~> |items|{}, \"id\"|.items.id", "{\"a\": 1, \"a\": 2}", "{1: 2}", "{nothing: 2}",
 	"items{k: s}", "items{nothing: s}", "items{\"x\": s}{\"y\": 1}", "a[b][c][d]", "a.b.c[0][1][2]", "**.**.**", "*.*.*", "$$.$$.$$", "[[[[[[1]]]]]]", "[1..3][[1..2]]", "[1,2,3][[0,\"a\"]]",
 	"(function($f){$f($f)})(function($f){1})", "$map([1,2,3], $map)", "$map([1,2,3], $reduce)", "$reduce([1,2,3], $append(?, ?))", "($f := $f; $f)", "(($x := 1) + $x)",
 	// boundary corpus: callbacks declaring more parameters than the built-in passes, ranges whose span overflows int64,
